@@ -188,7 +188,14 @@ func Apply(l *Live, s *State, ev Event, tpls Templates) *StepOut {
 		p := getPod(in, ns, name)
 		if p != nil {
 			ensureContainerStatuses(p)
-			cs := &p.Status.ContainerStatuses[0]
+			ci := 0
+			if ev.B != "" {
+				fmt.Sscanf(ev.B, "%d", &ci)
+			}
+			if ci >= len(p.Status.ContainerStatuses) {
+				ci = 0
+			}
+			cs := &p.Status.ContainerStatuses[ci]
 			cs.RestartCount += int32(ev.N)
 			cs.LastTerminationState = corev1.ContainerState{Terminated: &corev1.ContainerStateTerminated{ExitCode: 1, Reason: "Error", FinishedAt: now()}}
 			must(in.Status().Update(ctx, p))
@@ -497,6 +504,14 @@ func Tpl(tag string) corev1.PodTemplateSpec {
 	if i := strings.Index(tag, "+label:"); i > 0 {
 		kv := strings.SplitN(tag[i+len("+label:"):], "=", 2)
 		t.Labels[kv[0]] = kv[1]
+	}
+	// "X+side" : template X with a second container "side"
+	if strings.Contains(tag, "+side") {
+		base := tag
+		if i := strings.Index(tag, "+"); i > 0 {
+			base = tag[:i]
+		}
+		t.Spec.Containers = append(t.Spec.Containers, corev1.Container{Name: "side", Image: base + "-side"})
 	}
 	// "X+notname:<node>" : template X whose required node affinity excludes a node by name (metadata.name NotIn)
 	if i := strings.Index(tag, "+notname:"); i > 0 {
